@@ -27,7 +27,11 @@ try:
         if rc == 1:
             lines = [l for l in out.splitlines() if "VIOLATION[" in l or "failed after" in l or ": C2" in l]
             r["headline"] = lines[0][:600] if lines else ""
-        meta.setdefault("checks_run", {})[c] = r
+        if os.environ.get("VERIF_NO_PINNED"):
+            r["pinned_reproducers_skipped"] = True
+            meta.setdefault("generated_search_only", {})[c] = r
+        else:
+            meta.setdefault("checks_run", {})[c] = r
         print("check %s %s: exit=%d %s" % (c, tier, rc, viol[0] if viol else ""))
 finally:
     sh("git -C /repo checkout -- . && git -C /repo reset -q --hard HEAD")
